@@ -456,7 +456,15 @@ def r5(ctx):
             ctx.check(v_other == f"<reported {field}>", R, f"{cls}.{meth}:{field}:when-{other.name}", m, c, f"{field} = self._ac_timer_status.{field} (exactly as last reported) when timer_type is {other.name}", str(v_other))
         # the record is the only one in the message
         msgs = f.calls("AcTimerControlMessage")
-        ok = len(msgs) == 1 and any(isinstance(x, ast.List) and len(x.elts) == 1 and x.elts[0] is c for x in ast.walk(msgs[0][1]))
+        ok = False
+        if len(msgs) == 1:
+            mn_, mc_ = msgs[0]
+            for x in ast.walk(mc_):
+                if isinstance(x, ast.List) and len(x.elts) == 1:
+                    el = x.elts[0]
+                    # the element is the record itself, or a local bound once to it
+                    if el is c or (isinstance(el, ast.Name) and any(isinstance(d_.ast, ast.Assign) and d_.ast.value is c for d_ in f.defs_reaching(el.id, mn_) if d_.kind == "stmt") and len(f.defs_reaching(el.id, mn_)) == 1):
+                        ok = True
         ctx.check(ok, R, f"{cls}.{meth}:single-record", m, f.node, "AcTimerControlMessage(ac_timer_status=[<that record>])", norm_text(msgs[0][1])[:120] if msgs else "no message")
     # callers build the new state correctly
     for modname, cls, sender in ((AT4_API, "At4AirConditioner", "_send_timer_control_message"), (AT5_API, "At5AirConditioner", "_send_ac_timer_control_message")):
@@ -464,10 +472,20 @@ def r5(ctx):
         m = f.module
         calls = f.calls(sender)
         ok = False
+        snode = m.get_class(cls).methods.get(sender)
+        spar = [a_.arg for a_ in snode.args.args[1:]] if snode is not None else []
         for n, c in calls:
-            st = f.expand(c.args[1], n) if len(c.args) > 1 else None
-            kw = {k.arg: norm_text(k.value) for k in st.keywords} if isinstance(st, ast.Call) else {}
-            ok = kw.get("disabled") == "True" and norm_text(c.args[0]) == f.params[1]
+            bound = {spar[i]: a_ for i, a_ in enumerate(c.args) if i < len(spar)}
+            bound.update({k.arg: k.value for k in c.keywords if k.arg})
+            a_type, a_state = (bound.get(spar[0]), bound.get(spar[1])) if len(spar) >= 2 else (None, None)
+            st = f.expand(a_state, n) if a_state is not None else None
+            kw = {}
+            if isinstance(st, ast.Call):
+                sci = ctx.repo.resolve_class(m, st.func)
+                fields = [n_ for n_, _, _ in sci.fields] if sci is not None and sci.is_dataclass else []
+                kw = {fields[i]: norm_text(a_) for i, a_ in enumerate(st.args) if i < len(fields)}
+                kw.update({k.arg: norm_text(k.value) for k in st.keywords})
+            ok = kw.get("disabled") == "True" and a_type is not None and norm_text(a_type) == f.params[1]
         ctx.check(ok, R, f"{cls}.clear_quick_timer", m, f.node, "clearing sends the named timer with disabled=True", "different")
         f = fn_of(ctx, modname, f"{cls}.set_quick_timer")
         calls = f.calls(sender)
